@@ -5,8 +5,8 @@
  "enforce": ["http_request_cancel"],
  "replace": [],
  "annotate": ["http/http.c"],
- "defines": ["VERIF_HALLOC", "HTTP_N=16", "HTTP_BODYMAX=8", "VERIF_STRMAX=8"],
- "models": ["models/http_string.c", "models/http_env.c"],
+ "defines": ["VERIF_HALLOC", "HTTP_N=16", "HTTP_BODYMAX=8", "VERIF_STRMAX=8", "HTTP_WAS_FREED"],
+ "models": ["models/libc_string.c", "models/http_env.c"],
  "cbmc": ["--memory-leak-check"],
  "loop_contracts": false,
  "timeout": 300,
